@@ -242,6 +242,30 @@ def handleStitch (patch : Bool) (toks : List String) : List String :=
   | .error e => ["ERR " ++ e]
   | .ok ((rows, cols), rest) => s!"cols {" ".intercalate (cols.map toString)}" :: rows.map sRow ++ [s!"left {rest.length}"]
 
+/-! ## default salt machine -/
+
+def hexOf (l : List UInt8) : String :=
+  if l.isEmpty then "-" else String.join (l.map (fun b => String.ofList (Nat.toDigits 16 (b.toNat + 256)).tail))
+
+def handleSalt (toks : List String) : String :=
+  let main := toks.takeWhile (· ≠ "|")
+  let evs := ((toks.dropWhile (· ≠ "|")).drop 1).filterMap (fun t =>
+    let n := (t.drop 1).toString.toNat!
+    if t.startsWith "s" then some (SaltEv.step n) else if t.startsWith "c" then some (SaltEv.crash n)
+    else if t.startsWith "f" then some (SaltEv.fail n) else none)
+  match main with
+  | fileTok :: nTok :: cands =>
+    let file : Option (List UInt8) := if fileTok == "absent" then none else some (pHex fileTok).toList
+    let sys : SaltSys := { file, procs := (cands.take nTok.toNat!).map (fun c => { candidate := (pHex c).toList }) }
+    let r := sys.run evs
+    let showPc : SaltPc → String
+      | .at n => s!"at{n}"
+      | .done (.ok v) => s!"ok:{hexOf v}"
+      | .done .raised => "raised"
+      | .crashed => "crashed"
+    s!"file {match r.file with | none => "absent" | some v => hexOf v} | " ++ " ".intercalate (r.procs.map (fun p => showPc p.pc))
+  | _ => "ERR bad-op"
+
 /-! ## forest state and multi-line requests -/
 
 def sIvs (l : List (Ival Float)) : String := " ".intercalate (l.map sI)
@@ -326,6 +350,9 @@ partial def loop (h : IO.FS.Stream) (out : IO.FS.Stream) (st : DState) : IO Unit
   | "patch" :: rest =>
       for l in handleStitch true rest do out.putStrLn l
       out.putStrLn "END"
+      loop h out st
+  | "salt" :: rest =>
+      out.putStrLn (handleSalt rest)
       loop h out st
   | "plan" :: rest =>
       out.putStrLn (handlePlan rest)
